@@ -133,6 +133,22 @@ def main():
         ev["lane"] = (ev["lane"] + 1) % 2; return ev
     one("acc", "Trace_C17", 1, lambda e: e["op"] == "write" and e["obs"][0] != e["obs"][1], m_write_lane, label="acc (a write attributed to another lane)")
 
+    # swizzle histories: an observed lane pair exchanged; the name of a setter replaced by another
+    one("swz", "Trace_C16", 2, lambda e: e["op"] == "get" and e["obs"][0] != e["obs"][1], m_obs)
+    def m_name(ev):
+        ev["nm"] = list(reversed(ev["nm"])); ev["name"] = "".join(ev["nm"]); return ev
+    one("swz", "Trace_C16", 2, lambda e: e["op"] == "with" and e["rhs"][0] != e["rhs"][1], m_name, label="swz (setter attributed to the reversed name)")
+    # mask histories: one observed lane flipped; a xor logged as an or
+    def m_mask_lane(ev):
+        ev["obs"]["sel"][0] = not ev["obs"]["sel"][0]; return ev
+    one("mask", "Trace_C15", 2, lambda e: e["op"] == "set", m_mask_lane, label="mask (the lane seen by select flipped)")
+    def m_mask_op(ev):
+        ev["path"] = "or"; return ev
+    one("mask", "Trace_C15", 2, lambda e: e["op"] == "bin" and e["path"].startswith("xor") and any(ev_and for ev_and in e["arg"]) and e["obs"]["test"] != [a or b for a, b in zip(e["arg"], e["obs"]["test"])], m_mask_op, label="mask (a xor logged as an or)")
+    def m_mask_panic(ev):
+        ev["panicked"] = False; return ev
+    one("mask", "Trace_C15", 2, lambda e: e["op"] == "badindex", m_mask_panic, label="mask (an out-of-range index that did not panic)")
+
     print("SELFTEST", "PASSED" if good else "FAILED")
     return 0 if good else 1
 
